@@ -97,7 +97,7 @@ theorem native_agrees_tuple (xs ys : List Cell) (hlen : xs.length = ys.length)
     (hx : ∀ c ∈ xs, c.isBool = false) (hy : ∀ c ∈ ys, c.isBool = false) (o : Ordering)
     (h : nativeArr xs ys = some o) :
     cmp (.tuple (xs.map .cell)) (.tuple (ys.map .cell)) = o := by
-  simp only [cmp, Val.norm, normList_cells, cmpN, List.length_map, hlen]
+  simp only [cmp, Val.norm, normList_map_cell, cmpN, List.length_map, hlen]
   have : compare ys.length ys.length = .eq := by simp
   rw [this]
   exact cmpArr_cells_native xs ys hlen hx hy o h
